@@ -123,6 +123,7 @@ func TestVerifDump(t *testing.T) {
 	types := map[string]interface{}{
 		"string": "", "slice_string": []string{}, "qstring": verifQS{}, "int64": int64(0), "bool": false,
 		"float64": float64(0), "bytes": []byte{}, "map_str_int": map[string]int{},
+		"int8": int8(0), "int16": int16(0), "int32": int32(0), "uint8": uint8(0), "uint16": uint16(0), "uint32": uint32(0), "uint64": uint64(0), "float32": float32(0),
 	}
 	for name, v := range types {
 		prog, err := NewCompiler().Compile(reflect.TypeOf(v), false)
